@@ -125,14 +125,24 @@ def b_len(I, args, kw):
 
 def _forall_seq(I, seq, pred, exists=False):
     """ForAll/Exists over the elements of a SymSeq; pred maps element -> truth value."""
+    from .values import PathEnd
+
     ctx = I.ctx
     i = ctx.push_bound("q")
+    rng = z3.And(i.z >= 0, i.z < to_int_z(seq.length))
+
+    def thunk():
+        ctx.pc.append(rng)
+        return v_truth(pred(seq.get(i)))
+
     try:
-        body = ctx.merged(lambda: v_truth(pred(seq.get(i))))
+        try:
+            body = ctx.merged(thunk)
+        except PathEnd:
+            body = not exists
     finally:
         facts = ctx.pop_bound()
     zb = z_of(body) if not isinstance(body, bool) else z3.BoolVal(body)
-    rng = z3.And(i.z >= 0, i.z < to_int_z(seq.length))
     if exists:
         return mk(z3.Exists([i.z], z3.And(rng, *facts, zb)))
     return mk(z3.ForAll([i.z], z3.Implies(z3.And(rng, *facts), zb)))
@@ -318,6 +328,8 @@ def py_isinstance(I, v, T):
 
     if isinstance(T, extract.ClassInfo):
         return isinstance(v, SymObj) and v.cls.is_subclass_of(T.name)
+    if isinstance(T, ExternalFn) and T.name in ("tuple", "list", "int", "float", "bool", "str", "dict"):
+        T = TypeRef(T.name)
     if not isinstance(T, TypeRef):
         raise Unsupported(f"isinstance against {T!r}")
     n = T.name
